@@ -255,7 +255,7 @@ RunPlan generate(uint64_t seed, const std::string& lens, const std::string& shap
 	if ((caps & CAP_BUILTIN_RNG) && avoid.count("copy_shares_builtin_rng")) { w[OP_FORK] = 0; w[OP_KILL_ORIGINAL] = 0; }
 	if (caps & CAP_BUILTIN_RNG) { w[OP_CRASH] = 0; w[OP_RESTART] = 0; }
 	if (is("C05")) { w[OP_REACT] = 30; w[OP_QUERY] = 18; w[OP_UPDATE] = 20; }
-	if (is("C06") || is("C07") || is("C19")) { w[OP_PLAN_APPEND] = plans ? 26 : 0; w[OP_SUCCEED] = plans ? 12 : 0; w[OP_FAIL] = plans ? 5 : 0; w[OP_PLAN_REMOVE] = plans ? 6 : 0; w[OP_PLAN_CLEAR] = plans ? 4 : 0; }
+	if (is("C06") || is("C07") || is("C19")) { w[OP_EXIT] = manual ? 7 : 0; w[OP_ENTER] = manual ? 9 : 0; w[OP_PLAN_APPEND] = plans ? 26 : 0; w[OP_SUCCEED] = plans ? 12 : 0; w[OP_FAIL] = plans ? 5 : 0; w[OP_PLAN_REMOVE] = plans ? 6 : 0; w[OP_PLAN_CLEAR] = plans ? 4 : 0; }
 	if (is("C16")) { w[OP_LOGGER] = logc ? 6 : 0; w[OP_UPDATE] = 40; }
 	if (is("C08")) { w[OP_SNAPSHOT] = 14; w[OP_PERTURB] = 10; w[OP_DELIVER] = 20; }
 	if (is("C12")) { w[OP_IMMEDIATE] = 30; w[OP_REQUEST] = 25; }
